@@ -1,7 +1,7 @@
 //! C02 — weekday, day-of-year and week/quarter fields follow the calendar for every day.
 use crate::engine::*;
 use crate::gen;
-use crate::model::cal;
+use crate::model::{cal, fmt};
 use crate::obs::*;
 use crate::props::c01::DayCase;
 use arbitrary::Unstructured;
@@ -36,6 +36,61 @@ pub fn expected_fields(day: i64) -> [String; 12] {
         format!("{:02}", monday_first),
         format!("{}", cal::day_of_year(day)),
     ]
+}
+
+fn mix64(mut x: u64) -> u64 {
+    x = x.wrapping_add(0x9E37_79B9_7F4A_7C15);
+    x = (x ^ (x >> 30)).wrapping_mul(0xBF58_476D_1CE4_E5B9);
+    x = (x ^ (x >> 27)).wrapping_mul(0x94D0_49BB_1331_11EB);
+    x ^ (x >> 31)
+}
+
+/// two to five date fields (the first one a field of this property) with or without text between
+/// them, chosen from the bits of `h`
+fn composed_pattern(mut h: u64) -> Vec<fmt::Tok> {
+    const OWN: &[(char, &[usize])] = &[('w', &[1, 2]), ('e', &[1, 2, 3, 4, 5, 6, 7, 8]), ('q', &[1, 2, 3, 4, 5]), ('D', &[1, 2, 3])];
+    const ALL: &[(char, &[usize])] = &[
+        ('w', &[1, 2]),
+        ('e', &[1, 2, 3, 4, 5, 6, 7, 8]),
+        ('q', &[1, 2, 3, 4, 5]),
+        ('D', &[1, 2, 3]),
+        ('y', &[1, 2, 3, 4, 5]),
+        ('M', &[1, 2, 3, 4, 5]),
+        ('d', &[1, 2]),
+        ('G', &[1, 4, 5]),
+        ('w', &[1, 2]),
+        ('e', &[1, 2, 7, 8]),
+    ];
+    const SEPS: &[&str] = &["", "-", " ", "", "-", "/", ".", ", ", ":", "_"];
+    let mut take = |n: u64| {
+        let r = h % n;
+        h = mix64(h);
+        r as usize
+    };
+    let n = 2 + take(4);
+    let own_at = take(n as u64);
+    let mut toks: Vec<fmt::Tok> = Vec::new();
+    let mut last_sym = '\0';
+    for i in 0..n {
+        let tab = if i == own_at { OWN } else { ALL };
+        let (sym, widths) = tab[take(tab.len() as u64)];
+        let width = widths[take(widths.len() as u64)];
+        if i > 0 {
+            let k = take(SEPS.len() as u64 + 2);
+            if k >= SEPS.len() {
+                toks.push(fmt::Tok::Quoted(["W", "T", " week ", "-"][take(4)].to_string()));
+            } else if SEPS[k].is_empty() {
+                if sym == last_sym {
+                    toks.push(fmt::Tok::Lit("-".to_string()));
+                }
+            } else {
+                toks.push(fmt::Tok::Lit(SEPS[k].to_string()));
+            }
+        }
+        toks.push(fmt::Tok::Field { sym, width });
+        last_sym = sym;
+    }
+    toks
 }
 
 fn classify(day: i64, cx: &mut Cx) {
@@ -108,6 +163,35 @@ impl Prop for DayFields {
                         &format!("c02.{}{}", kind, sig_era),
                         format!("{}::format(\"{}\") of {} = {:?}", api, FIELD_NAMES[i], fmt_day(day), want[i]),
                         format!("{:?}", got[i]),
+                    );
+                }
+            }
+        }
+        // the same fields inside composed patterns: next to each other and next to the other date
+        // fields, in any order, with and without text between them (what a field prints must not
+        // depend on which fields stand around it)
+        for salt in 0..3u64 {
+            let toks = composed_pattern(mix64(day as u64 ^ (salt.wrapping_mul(0x9E37_79B9)) << 1));
+            let pattern = fmt::pattern_of(&toks);
+            let want = match fmt::render(&toks, &fmt::local_fields(fmt::Kind::Date, day, 0, 0), 0) {
+                Ok(w) => w,
+                Err(_) => continue,
+            };
+            cx.label("composed_pattern");
+            if toks.windows(2).any(|w| matches!(w, [fmt::Tok::Field { .. }, fmt::Tok::Field { .. }])) {
+                cx.label("composed_pattern_with_adjacent_fields");
+            }
+            let r = catch(|| (mk_date(day).format(&pattern), DateTime::from_timestamp((day - cal::DAYS_TO_1970) * 86_400 + 86_399).format(&pattern)));
+            let (g1, g2) = match r {
+                Ok(v) => v,
+                Err(p) => return fail("c02.panic", "format returns", p.short()),
+            };
+            for (api, got) in [("Date", &g1), ("DateTime", &g2)] {
+                if *got != want {
+                    return fail(
+                        &format!("c02.field_depends_on_its_neighbours{}", sig_era),
+                        format!("{}::format({:?}) of {} = {:?}", api, pattern, fmt_day(day), want),
+                        format!("{:?}", got),
                     );
                 }
             }
